@@ -49,7 +49,19 @@ const Statement * WHILEStatement::doit(Context& ctx) const
   {
     ctx.stackControl(this, nullptr);
   }
-  Value& val = exp->value(ctx);
+  Value * pval;
+  try
+  {
+    pval = &(exp->value(ctx));
+  }
+  catch (...)
+  {
+    /* the condition failed: this loop must not stay on the control stack */
+    if (this == ctx.topControl())
+      ctx.unstackControl();
+    throw;
+  }
+  Value& val = *pval;
   if (!val.isNull() && *val.boolean())
   {
     /* it should run with the given context */
